@@ -112,6 +112,17 @@ def job_offset_value():
                 res.merge(r)
     return res
 
+def candidates(job_name, fobj, rep=None):
+    """concrete byte strings for a failed unit obligation: the model's own bytes, or — when the model is over uninterpreted
+    lower levels (units H3..H5) — the failures of the same unit run with every level real at a smaller length"""
+    H = fobj["model"].get("H"); cands = [fobj["model"]["bytes"]]
+    if H in (3, 4, 5):
+        fb = job_unit({3: 13, 4: 14, 5: 0}[H], 9, zone=(1 if ("zone-offset" in job_name or "zone=1" in job_name) else 0) if H == 3 else None)
+        cands = [f["model"]["bytes"] for f in fb["failed"]] or cands
+        if rep is not None:
+            rep.extra.setdefault("fallback_runs", []).append({"for": job_name, "unit": {3: 13, 4: 14, 5: 0}[H], "L": 9, "cmd": fb["extra"].get("cbmc_cmd")})
+    return cands
+
 def run(tier):
     rep = common.Report("C16", tier, "other")
     rep.trusted = ["clang++-14 -O0 IR of wrap/posix.cc (which #includes src/time_zone_posix.cc)", "engine/irparse.py, engine/ir2c.py", "CBMC 6.11 (MiniSat)",
@@ -149,12 +160,7 @@ def run(tier):
                 if hit: rep.violation("str:" + hit[0].decode("latin1"), hit[1] + "  [%s: %s]" % (r["name"], fobj["desc"]), {"bytes": list(hit[0]) + [0]})
                 else: rep.spurious.append({"job": r["name"], "obligation": fobj["desc"], "model": fobj["model"]})
                 continue
-            H = fobj["model"].get("H"); cands = [fobj["model"]["bytes"]]
-            if H in (3, 4, 5):
-                # the model is over uninterpreted lower levels: get a concrete string from the same unit with every level real
-                fb = job_unit({3: 13, 4: 14, 5: 0}[H], 9, zone=(1 if "zone-offset" in r["name"] else 0) if H == 3 else None)
-                cands = [f["model"]["bytes"] for f in fb["failed"]] or cands
-                rep.extra.setdefault("fallback_runs", []).append({"for": r["name"], "unit": {3: 13, 4: 14, 5: 0}[H], "L": 9, "cmd": fb["extra"].get("cbmc_cmd")})
+            cands = candidates(r["name"], fobj, rep)
             hit = None
             for bs in cands:
                 c, w = embed_and_replay(bs)
